@@ -928,3 +928,7 @@ mod tests {
         assert_eq!(buf, [0x80, 51, 0, 0]);
     }
 }
+
+#[cfg(all(test, pendulum_project_ntpd_rs_verif))]
+#[path = "/verif/harness/ntp_proto/nts_record.rs"]
+pub(crate) mod verif_hook;
